@@ -8,6 +8,7 @@ import os
 import random
 import subprocess
 import sys
+import tempfile
 import time
 
 VERIF = os.path.dirname(os.path.dirname(os.path.abspath(__file__)))
@@ -222,8 +223,12 @@ def run_workers(module, jobs, nproc=None, timeout=600, hashseeds=None, env_extra
                 env["PYTHONHASHSEED"] = str(hashseeds[idx % len(hashseeds)])
             if "hashseed" in job:
                 env["PYTHONHASHSEED"] = str(job["hashseed"])
-            p = subprocess.Popen([PY, "-m", "pv.worker", module], stdin=subprocess.PIPE, stdout=subprocess.PIPE,
-                                 stderr=subprocess.PIPE, env=env, cwd=job.get("cwd", VERIF), text=True)
+            # stdout/stderr go to temporary files: a chatty child (logging) must never block on a full pipe
+            fout = tempfile.TemporaryFile(mode="w+")
+            ferr = tempfile.TemporaryFile(mode="w+")
+            p = subprocess.Popen([PY, "-m", "pv.worker", module], stdin=subprocess.PIPE, stdout=fout,
+                                 stderr=ferr, env=env, cwd=job.get("cwd", VERIF), text=True)
+            p._pv_files = (fout, ferr)
             try:
                 p.stdin.write(json.dumps(job))
                 p.stdin.close()
@@ -237,12 +242,21 @@ def run_workers(module, jobs, nproc=None, timeout=600, hashseeds=None, env_extra
                 if time.time() - t0 > timeout:
                     p.kill()
                     p.wait()
+                    for f in p._pv_files:
+                        f.close()
                     results[idx] = (job, None, "worker timeout after %ss" % timeout)
                 else:
                     still.append((idx, job, p, t0))
                 continue
-            out = p.stdout.read()
-            err = p.stderr.read()
+            fout, ferr = p._pv_files
+            fout.seek(0)
+            out = fout.read()
+            ferr.seek(0, 2)
+            size = ferr.tell()
+            ferr.seek(max(0, size - 4000))
+            err = ferr.read()
+            fout.close()
+            ferr.close()
             res = None
             for line in reversed(out.splitlines()):
                 if line.startswith("PVRESULT "):
